@@ -426,3 +426,91 @@ pub fn c04_wide_case(src: &mut Src, obs: &mut Obs) -> CaseResult {
     obs.sample(&format!("wide-{}-{}", if is_gv { "gv" } else { "dbus" }, outcome), describe);
     Ok(())
 }
+
+/// C04, GVariant framing offsets: small containers whose elements end at unaligned positions
+/// (string keys in front of 2/4/8-aligned values, arrays of variable-sized structures, nested arrays
+/// of strings), serialised by the reference serialiser, with one or two of the trailing framing
+/// offsets set just beside an element boundary (into the padding in front of the next element, into
+/// the offset table, past the end). Same oracle as `c04_case`.
+#[cfg(feature = "gvariant")]
+pub fn c04_gvframe_case(src: &mut Src, obs: &mut Obs) -> CaseResult {
+    let big = src.bool();
+    let off = *src.pick(&[0usize, 0, 8, 1, 4]);
+    let key = |src: &mut Src| RVal::S("k".repeat(1 + src.below(4)));
+    let val_of = |src: &mut Src, k: usize| match k {
+        0 => RVal::U(src.u32()),
+        1 => RVal::T(src.u64()),
+        2 => RVal::Q(src.u16()),
+        3 => RVal::V(Box::new((RSig::U, RVal::U(7)))),
+        4 => RVal::St(vec![RVal::U(1), RVal::T(2)]),
+        _ => RVal::St(vec![RVal::S("x".repeat(src.below(3))), RVal::U(3)]),
+    };
+    let n = 2 + src.below(4);
+    let k = src.below(6);
+    let v = match src.below(4) {
+        0 | 1 => {
+            let entries: Vec<(RVal, RVal)> = (0..n).map(|_| (key(src), val_of(src, k))).collect();
+            // distinct keys
+            let entries: Vec<(RVal, RVal)> = entries.into_iter().enumerate().map(|(i, (kk, vv))| (match kk { RVal::S(s) => RVal::S(format!("{s}{i}")), x => x }, vv)).collect();
+            RVal::Dict(RSig::S, entries[0].1.sig(), entries)
+        }
+        2 => {
+            let items: Vec<RVal> = (0..n).map(|_| RVal::St(vec![key(src), val_of(src, k)])).collect();
+            RVal::A(items[0].sig(), items)
+        }
+        _ => {
+            let items: Vec<RVal> = (0..n).map(|_| RVal::A(RSig::S, (0..src.below(3)).map(|_| key(src)).collect())).collect();
+            RVal::A(RSig::A(Box::new(RSig::S)), items)
+        }
+    };
+    let s = v.sig();
+    let (mut b, _) = gv::serialize(&v, big, off, gv::Dev::default());
+    if b.len() < 4 {
+        return Ok(());
+    }
+    let mut w = vec![];
+    for _ in 0..1 + src.below(2) {
+        let i = (b.len() - 1 - src.below(b.len().min(n + 2))).max(1);
+        let nb = match src.below(6) {
+            0 => b[i - 1].wrapping_add(src.below(5) as u8),
+            1 => b[i].wrapping_add(1 + src.below(4) as u8),
+            2 => b[i].wrapping_sub(1 + src.below(4) as u8),
+            3 => (b.len() - src.below(3).min(b.len())) as u8,
+            4 => 0,
+            _ => src.u8(),
+        };
+        w.push(format!("{i}:{:#x}->{nb:#x}", b[i]));
+        b[i] = nb;
+    }
+    let target = *src.pick(&[0usize, 0, 3, 2, 6, 1]);
+    let sig = to_sig(&s);
+    let data = Data::new_fds(b.clone(), ctx(Format::GVariant, big, off), Vec::<std::os::fd::OwnedFd>::new());
+    let describe = || format!("format=GVariant sig={} base={} target={} {} off={} input[{}]={} (offsets {})", s.to_string(), v.show(), target, if big { "BE" } else { "LE" }, off, b.len(), hex(&b[..b.len().min(120)]), w.join(","));
+    let (r, peak) = measure(|| guarded(|| decode_all(&data, &sig, target)));
+    let r = match r {
+        Ok(r) => r,
+        Err(mut p) => {
+            p.msg = format!("decoding panicked: {} ; {}", p.msg, describe());
+            return Err(p);
+        }
+    };
+    let outcome = match r {
+        Ok(o) => o,
+        Err(mut f) => {
+            f.msg = format!("{} ; {}", f.msg, describe());
+            return Err(f);
+        }
+    };
+    let bound = 1024 * (b.len() + s.to_string().len()) + 64 * 1024;
+    if peak > bound {
+        return Err(Failure::new(format!("decoding allocated {peak} bytes at peak for {} input bytes (bound {bound}); {}", b.len(), describe())));
+    }
+    obs.label(outcome);
+    obs.label("gv-framing-offsets");
+    let mut kk = s.to_string().into_bytes();
+    kk.extend_from_slice(&b);
+    kk.push(target as u8);
+    obs.nontrivial(fnv(&kk));
+    obs.sample(&format!("gv-frame-{outcome}"), describe);
+    Ok(())
+}
